@@ -223,6 +223,149 @@ theorem payloadOf_sanitised (d : FullDesc) :
   obtain ⟨h1, h2, h3, h4, h5, h6, h7, h8⟩ := hk
   simp [payloadOf, facts_sanitize.2.1, facts_sanitize.2.2, project, sanitised, h1, h2, h3, h4, h5, h6, h7, h8]
 
+/-! ### envelope-generator plugins: only a faithful payload is accepted -/
+
+theorem otherThan_ne (v a b : String) (hab : a ≠ b) : otherThan v a b ≠ v := by
+  unfold otherThan
+  split
+  · rename_i h; rw [h]; exact fun e => hab e.symm
+  · rename_i h; exact fun e => h e.symm
+
+theorem kvLookup_filter_ne (k : String) (l : List KV) : kvLookup k (l.filter (fun x => x.k != k)) = none := by
+  induction l with
+  | nil => rfl
+  | cons x xs ih =>
+    simp only [List.filter_cons]
+    by_cases h : x.k = k
+    · simp [h, ih]
+    · simp [h, kvLookup, ih]
+
+theorem kvLookup_map_changed (k : String) (f : String → String) (l : List KV) :
+    kvLookup k (l.map (fun x => if x.k = k then ⟨x.k, f x.v⟩ else x)) = (kvLookup k l).map f := by
+  induction l with
+  | nil => rfl
+  | cons x xs ih =>
+    simp only [List.map_cons, kvLookup]
+    by_cases h : x.k = k
+    · simp [h]
+    · simp [h, ih]
+
+theorem mem_kvLookup_isSome (x : KV) (l : List KV) (h : x ∈ l) : (kvLookup x.k l).isSome = true := by
+  induction l with
+  | nil => cases h
+  | cons y ys ih =>
+    simp only [kvLookup]
+    split
+    · rfl
+    · rename_i hne
+      cases h with
+      | head => exact absurd rfl hne
+      | tail _ h' => exact ih h'
+
+theorem kvLookup_some_mem (k v : String) (l : List KV) (h : kvLookup k l = some v) : ∃ x ∈ l, x.k = k := by
+  induction l with
+  | nil => simp [kvLookup] at h
+  | cons y ys ih =>
+    simp only [kvLookup] at h
+    split at h
+    · rename_i hk; exact ⟨y, List.mem_cons_self, hk⟩
+    · obtain ⟨x, hx, hxk⟩ := ih h
+      exact ⟨x, List.mem_cons_of_mem _ hx, hxk⟩
+
+/-- appending an annotation keeps every requested annotation iff it does not override one -/
+theorem kvSubset_insert (k v : String) (l : List KV) :
+    kvSubset l (kvInsert k v l) =
+      (match kvLookup k l with
+       | none => true
+       | some v' => v' == v) := by
+  cases hl : kvLookup k l with
+  | none =>
+    simp only [kvSubset, List.all_eq_true, beq_iff_eq]
+    intro x hx
+    rw [kvLookup_insert]
+    have := mem_kvLookup_isSome x l hx
+    by_cases hk : k = x.k
+    · rw [← hk, hl] at this; simp at this
+    · simp [hk]
+  | some v' =>
+    by_cases hv : v' = v
+    · subst hv
+      simp only [beq_self_eq_true, kvSubset, List.all_eq_true, beq_iff_eq]
+      intro x _
+      rw [kvLookup_insert]
+      by_cases hk : k = x.k
+      · simp [hk, ← hl]
+      · simp [hk]
+    · have hb : (v' == v) = false := by simpa using hv
+      simp only [hb]
+      obtain ⟨x, hx, hxk⟩ := kvLookup_some_mem k v' l hl
+      simp only [kvSubset, List.all_eq_false, beq_iff_eq]
+      refine ⟨x, hx, ?_⟩
+      rw [hxk, kvLookup_insert, hl]
+      simp only [if_true]
+      intro h
+      exact hv (Option.some.inj h).symm
+
+theorem tolerated_unknown : c07PluginPayloadTolerated.contains "c07Unknown" = false := by decide
+
+/-- **The envelope-plugin check, characterised**: the payload a plugin returns is accepted
+exactly when the plugin was faithful to the requested payload (an appended annotation that
+overrides nothing is allowed), for descriptors with any annotations -/
+theorem plugin_check_eq (t : Tamper) (d : FullDesc) :
+    (payloadDescriptorValid d (tamperPayload t (sanitised d)) &&
+      !unknownAttributesAdded (tamperPayload t (sanitised d))) = !unfaithful t (sanitised d) := by
+  cases t with
+  | faithful => simp [tamperPayload, unfaithful, payloadDescriptorValid, sanitised, kvSubset_refl, unknownAttributesAdded]
+  | reserialised => simp [tamperPayload, unfaithful, payloadDescriptorValid, sanitised, kvSubset_refl, unknownAttributesAdded]
+  | dropAnnotation =>
+    cases ha : d.annotations with
+    | nil => simp [tamperPayload, unfaithful, payloadDescriptorValid, sanitised, ha, kvSubset, unknownAttributesAdded]
+    | cons a rest =>
+      have : kvSubset (a :: rest) ((a :: rest).filter (fun x => x.k != a.k)) = false := by
+        simp only [kvSubset, List.all_eq_false, beq_iff_eq]
+        exact ⟨a, List.mem_cons_self, by simp [kvLookup_filter_ne, kvLookup]⟩
+      simp only [tamperPayload, unfaithful, payloadDescriptorValid, sanitised, ha, this]
+      simp
+  | addAnnotation =>
+    simp only [tamperPayload, unfaithful, payloadDescriptorValid, sanitised, unknownAttributesAdded, kvSubset_insert,
+      beq_self_eq_true, Bool.true_and, List.any_nil, Bool.not_false, Bool.and_true]
+    cases kvLookup pluginAddedKey d.annotations with
+    | none => simp
+    | some v => cases h : (v == pluginAddedValue) <;> simp [bne, h]
+  | changeAnnotation =>
+    cases ha : d.annotations with
+    | nil => simp [tamperPayload, unfaithful, payloadDescriptorValid, sanitised, ha, kvSubset, unknownAttributesAdded]
+    | cons a rest =>
+      have : kvSubset (a :: rest) ((a :: rest).map (fun x =>
+          if x.k = a.k then ⟨x.k, otherThan x.v "c07-changed" "c07-changed-2"⟩ else x)) = false := by
+        simp only [kvSubset, List.all_eq_false, beq_iff_eq]
+        refine ⟨a, List.mem_cons_self, ?_⟩
+        rw [kvLookup_map_changed a.k (fun v => otherThan v "c07-changed" "c07-changed-2")]
+        simp only [kvLookup, if_true, Option.map_some]
+        intro h
+        exact otherThan_ne _ _ _ (by decide) (Option.some.inj h)
+      simp only [tamperPayload, unfaithful, payloadDescriptorValid, sanitised, ha, this]
+      simp
+  | changeMediaType =>
+    have : (d.mediaType == otherThan d.mediaType "application/x-c07-changed" "application/x-c07-changed-2") = false := by
+      simp only [beq_eq_false_iff_ne, ne_eq]
+      exact fun h => otherThan_ne _ _ _ (by decide) h.symm
+    simp [tamperPayload, unfaithful, payloadDescriptorValid, sanitised, this]
+  | changeSize =>
+    have : (d.size == d.size + 1) = false := by
+      simp only [beq_eq_false_iff_ne, ne_eq]; omega
+    simp [tamperPayload, unfaithful, payloadDescriptorValid, sanitised, this]
+  | addUnknownField =>
+    have h : ¬ "c07Unknown" ∈ c07PluginPayloadTolerated := by decide
+    simp [tamperPayload, unfaithful, unknownAttributesAdded, sanitised, h]
+
+/-- a plugin that passes the check signed the requested payload, possibly with its own annotation appended -/
+theorem tamperPayload_of_faithful (t : Tamper) (p : DescObs) (h : unfaithful t p = false) :
+    tamperPayload t p =
+      if t = .addAnnotation then { p with annotations := kvInsert pluginAddedKey pluginAddedValue p.annotations }
+      else p := by
+  cases t <;> simp [unfaithful] at h <;> simp [tamperPayload, h]
+
 /-- with a whole number of seconds the expiry is the (truncated) signing time plus the duration,
 whatever the sub-second part of the clock and whoever computes it -/
 theorem protectedAttrs_eq (alg : String) (p : DescObs) (ep : Bool) (d nowNs : Int) (hd : d % 1000000000 = 0) :
@@ -241,10 +384,15 @@ theorem integrity_envelopeOf (C : Crypto) (key : C.Key) (i : Input) (attrs : Pro
     (h : attrs.alg = specAlg i.keySpec) : (envelopeOf C key i attrs).integrity = true := by
   simp [Envelope.integrity, envelopeOf, h, coreHash_specAlg, C.correct]
 
+theorem effectiveTamper_eq (i : Input) :
+    effectiveTamper i = if (i.signer == .pluginEnvelope) = true then i.tamper else .faithful := rfl
+
 theorem signDesc_eq (C : Crypto) (key : C.Key) (i : Input) (nowNs : Int) (d : FullDesc) :
     signDesc C key i i.keySpec.core nowNs d =
-      some (envelopeOf C key i
-        (protectedAttrs (specAlg i.keySpec) (sanitised d) (i.signer == .pluginEnvelope) i.durationNs nowNs)) := by
+      if unfaithful (effectiveTamper i) (sanitised d) then none
+      else some (envelopeOf C key i
+        (protectedAttrs (specAlg i.keySpec) (tamperPayload (effectiveTamper i) (sanitised d))
+          (i.signer == .pluginEnvelope) i.durationNs nowNs)) := by
   unfold signDesc
   simp only [headerAlg_eq, primitiveHash_eq]
   have hp : payloadOf (if (i.signer == SignerKind.pluginEnvelope) = true then c07EnvelopePluginSanitizes
@@ -253,17 +401,29 @@ theorem signDesc_eq (C : Crypto) (key : C.Key) (i : Input) (nowNs : Int) (d : Fu
     · exact (payloadOf_sanitised d).2
     · exact (payloadOf_sanitised d).1
   rw [hp]
-  have hi := integrity_envelopeOf C key i
-    (protectedAttrs (specAlg i.keySpec) (sanitised d) (i.signer == .pluginEnvelope) i.durationNs nowNs) (by simp [protectedAttrs])
+  have hpay : (if (i.signer == SignerKind.pluginEnvelope) = true then tamperPayload i.tamper (sanitised d)
+      else sanitised d) = tamperPayload (effectiveTamper i) (sanitised d) := by
+    rw [effectiveTamper_eq]; split <;> simp [tamperPayload]
+  rw [hpay]
+  have hi : ∀ ep : Bool, (envelopeOf C key i (protectedAttrs (specAlg i.keySpec)
+      (tamperPayload (effectiveTamper i) (sanitised d)) ep i.durationNs nowNs)).integrity = true :=
+    fun ep => integrity_envelopeOf C key i _ (by simp [protectedAttrs])
   simp only [envelopeOf] at hi
-  have h1 : (protectedAttrs (specAlg i.keySpec) (sanitised d) (i.signer == .pluginEnvelope) i.durationNs nowNs).payloadType
-      = payloadTypeV1 := rfl
-  have h2 : (protectedAttrs (specAlg i.keySpec) (sanitised d) (i.signer == .pluginEnvelope) i.durationNs nowNs).payload
-      = sanitised d := rfl
-  have h3 : payloadDescriptorValid d (sanitised d) = true := by
-    simp [payloadDescriptorValid, sanitised, kvSubset_refl]
-  simp [hi, envelopeOf, h1, h2, h3]
-
+  have h1 : ∀ ep : Bool, (protectedAttrs (specAlg i.keySpec) (tamperPayload (effectiveTamper i) (sanitised d))
+      ep i.durationNs nowNs).payloadType = payloadTypeV1 := fun _ => rfl
+  have h2 : ∀ ep : Bool, (protectedAttrs (specAlg i.keySpec) (tamperPayload (effectiveTamper i) (sanitised d))
+      ep i.durationNs nowNs).payload = tamperPayload (effectiveTamper i) (sanitised d) := fun _ => rfl
+  have hc := plugin_check_eq (effectiveTamper i) d
+  by_cases hs : (i.signer == SignerKind.pluginEnvelope) = true
+  · by_cases hu : unfaithful (effectiveTamper i) (sanitised d) = true
+    · simp only [hu, Bool.not_true, Bool.and_eq_false_iff, Bool.not_eq_false'] at hc
+      rcases hc with hc | hc <;> simp [hi, envelopeOf, h1, h2, hs, hu, hc]
+    · have hu' : unfaithful (effectiveTamper i) (sanitised d) = false := by simpa using hu
+      simp only [hu', Bool.not_false, Bool.and_eq_true, Bool.not_eq_true'] at hc
+      simp [hi, envelopeOf, h1, h2, hs, hu', hc.1, hc.2]
+  · have hf : effectiveTamper i = .faithful := by rw [effectiveTamper_eq]; simp [hs]
+    have hu' : unfaithful (effectiveTamper i) (sanitised d) = false := by rw [hf]; rfl
+    simp [hi, envelopeOf, h1, h2, hs, hu']
 
 theorem signArgsOk_eq (d : Int) : signArgsOk d = (decide (0 ≤ d) && decide (d % 1000000000 = 0)) := by
   simp only [signArgsOk, facts_guards.1, facts_guards.2.1, Bool.true_and]
@@ -274,6 +434,24 @@ def expectedAttrs (i : Input) (nowNs : Int) : Protected :=
   { alg := specAlg i.keySpec, payloadType := payloadTypeV1, payload := expectedPayload i,
     signingTime := nowNs / 1000000000,
     expiry := if i.durationNs ≠ 0 then some (nowNs / 1000000000 + i.durationNs / 1000000000) else none }
+
+/-- a plugin that passes the check signed what verification must report -/
+theorem tamperPayload_expected (i : Input) (hu : unfaithful (effectiveTamper i) (requestedPayload i) = false) :
+    tamperPayload (effectiveTamper i) (requestedPayload i) = expectedPayload i := by
+  rw [tamperPayload_of_faithful _ _ hu]; rfl
+
+/-- the tail of the signing path, once the descriptor to sign is the requested one -/
+theorem signDesc_requested (C : Crypto) (key : C.Key) (i : Input) (nowNs : Int) (d : FullDesc)
+    (h1 : i.durationNs % 1000000000 = 0) (hreq : sanitised d = requestedPayload i) :
+    signDesc C key i i.keySpec.core nowNs d =
+      if unfaithful (effectiveTamper i) (requestedPayload i) then none
+      else some (envelopeOf C key i (expectedAttrs i nowNs)) := by
+  rw [signDesc_eq, hreq, protectedAttrs_eq _ _ _ _ _ h1]
+  by_cases hu : unfaithful (effectiveTamper i) (requestedPayload i) = true
+  · simp [hu]
+  · have hu' : unfaithful (effectiveTamper i) (requestedPayload i) = false := by simpa using hu
+    simp only [hu', Bool.false_eq_true, if_false, tamperPayload_expected i hu']
+    rfl
 
 /-- **the signing API, characterised**: it refuses exactly the illegal arguments, and for legal
 ones the envelope protects the sanitised descriptor with the metadata merged in, the truncated
@@ -290,8 +468,10 @@ theorem signModel_eq (C : Crypto) (key : C.Key) (i : Input) (nowNs : Int) (hwf :
       | oci =>
         simp only [ociKeySpec_eq, addUserMetadata_eq]
         by_cases hl : legalMetadata i.desc.annotations i.metadata = true
-        · simp only [hl, if_true, signDesc_eq, protectedAttrs_eq _ _ _ _ _ h1]
-          simp [expectedAttrs, expectedPayload, hk, sanitised]
+        · have hreq : sanitised { i.desc with annotations := mergeKV i.desc.annotations i.metadata } =
+              requestedPayload i := by simp [sanitised, requestedPayload, hk]
+          simp only [hl, if_true, signDesc_requested C key i nowNs _ h1 hreq, Bool.true_and]
+          cases unfaithful (effectiveTamper i) (requestedPayload i) <;> simp
         · simp [hl]
       | blob =>
         by_cases hm : i.contentMediaType = ""
@@ -300,8 +480,11 @@ theorem signModel_eq (C : Crypto) (key : C.Key) (i : Input) (nowNs : Int) (hwf :
           · have hsz := (wf_blob i hwf hk).1
             simp only [signerKeySpec_eq, signerDigestAlg_eq, hsz, digestOfFirst_all, addUserMetadata_eq]
             by_cases hl : legalMetadata [] i.metadata = true
-            · simp only [hl, if_true, signDesc_eq, protectedAttrs_eq _ _ _ _ _ h1]
-              simp [expectedAttrs, expectedPayload, hk, sanitised, blobDescriptor, hm, hv]
+            · have hreq : sanitised (blobDescriptor i (i.blob.specDigest i.keySpec) i.blob.size
+                  (mergeKV [] i.metadata)) = requestedPayload i := by
+                simp [sanitised, requestedPayload, hk, blobDescriptor]
+              simp only [hl, if_true, signDesc_requested C key i nowNs _ h1 hreq]
+              cases unfaithful (effectiveTamper i) (requestedPayload i) <;> simp [hm, hv]
             · simp [hl, hm, hv]
           · simp [hm, hv]
     · simp [h0, h1]
@@ -334,6 +517,69 @@ theorem notExpired_eq (i : Input) (nowNs : Int) :
     · simp [h] <;> omega
 
 /-- what the verification API answers on the envelope of a legal signing call -/
+theorem expectedPayload_fields (i : Input) :
+    (expectedPayload i).mediaType = (requestedPayload i).mediaType ∧
+    (expectedPayload i).digest = (requestedPayload i).digest ∧
+    (expectedPayload i).size = (requestedPayload i).size ∧
+    (expectedPayload i).extraKeys = (requestedPayload i).extraKeys := by
+  unfold expectedPayload; split <;> simp
+
+theorem requestedPayload_oci (i : Input) (hk : i.kind = .oci) :
+    requestedPayload i =
+      { mediaType := i.desc.mediaType, digest := i.desc.digest, size := i.desc.size,
+        annotations := mergeKV i.desc.annotations i.metadata, extraKeys := [] } := by
+  simp [requestedPayload, hk]
+
+theorem requestedPayload_blob (i : Input) (hk : i.kind = .blob) :
+    requestedPayload i =
+      { mediaType := i.contentMediaType, digest := i.blob.specDigest i.keySpec,
+        size := i.blob.size, annotations := mergeKV [] i.metadata, extraKeys := [] } := by
+  simp [requestedPayload, hk]
+
+/-- an allowed appended annotation does not disturb what the caller requires -/
+theorem kvSubset_insert_of_subset (w l : List KV) (k v : String) (h : kvSubset w l = true)
+    (hacc : (match kvLookup k l with | none => true | some v' => v' == v) = true) :
+    kvSubset w (kvInsert k v l) = true := by
+  simp only [kvSubset, List.all_eq_true, beq_iff_eq] at h ⊢
+  intro x hx
+  rw [kvLookup_insert]
+  by_cases hk : k = x.k
+  · simp only [hk, if_true]
+    have h1 := h x hx
+    have h2 := mem_kvLookup_isSome x w hx
+    rw [← h1] at h2
+    rw [← hk] at h1 h2
+    cases hl : kvLookup k l with
+    | none => rw [hl] at h2; simp at h2
+    | some v' =>
+      rw [hl] at hacc h1
+      simp only [beq_iff_eq] at hacc
+      rw [← hk, ← h1, hacc]
+  · simp only [hk, if_false]; exact h x hx
+
+theorem unfaithful_of_legal (i : Input) (hl : legal i = true) :
+    unfaithful (effectiveTamper i) (requestedPayload i) = false := by
+  simp only [legal, Bool.and_eq_true, Bool.not_eq_true'] at hl
+  exact hl.2
+
+theorem kvSubset_expected (i : Input) (w : List KV) (hl : legal i = true)
+    (h : kvSubset w (requestedPayload i).annotations = true) :
+    kvSubset w (expectedPayload i).annotations = true := by
+  unfold expectedPayload
+  split
+  · rename_i ht
+    have hu := unfaithful_of_legal i hl
+    rw [ht] at hu
+    apply kvSubset_insert_of_subset _ _ _ _ h
+    simp only [unfaithful] at hu
+    cases hlk : kvLookup pluginAddedKey (requestedPayload i).annotations with
+    | none => rfl
+    | some v' =>
+      rw [hlk] at hu
+      simp only [bne_eq_false_iff_eq] at hu
+      simp [hu]
+  · exact h
+
 def verifySpec (i : Input) : Bool :=
   !expiredAtVerify i &&
   (match i.kind with
@@ -348,15 +594,17 @@ theorem kvSubset_nil (a : List KV) : kvSubset [] a = true := rfl
 /-- a verification call that asks for what was signed, before the expiry, succeeds -/
 theorem verifySpec_of_consistent (i : Input) (hl : legal i = true) (hc : consistentVerify i = true)
     (he : expiredAtVerify i = false) : verifySpec i = true := by
+  have hlegal := hl
   simp only [legal, Bool.and_eq_true, decide_eq_true_eq] at hl
   simp only [consistentVerify, Bool.and_eq_true, bne_iff_ne, ne_eq, Bool.or_eq_true, beq_iff_eq] at hc
-  obtain ⟨⟨_, _⟩, hk⟩ := hl
+  obtain ⟨⟨⟨_, _⟩, hk⟩, _⟩ := hl
   obtain ⟨hmd, hmt⟩ := hc
   simp only [verifySpec, he, Bool.not_false, Bool.true_and]
   cases hkind : i.kind with
   | oci =>
     simp only [hkind] at hk
-    simp only [expectedPayload, hkind]
+    apply kvSubset_expected i _ hlegal
+    rw [requestedPayload_oci i hkind]
     cases hv : i.verifyMetadata with
     | nothing => simp [wantedMetadata, hv, kvSubset_nil]
     | all => simp [wantedMetadata, hv, kvSubset_merge _ _ hk]
@@ -373,11 +621,18 @@ theorem verifySpec_of_consistent (i : Input) (hl : legal i = true) (hc : consist
       | same => simp [statedMediaType, hv]
       | unstated => simp [statedMediaType, hv]
       | other => exact absurd hv hmt'
-    simp only [expectedPayload, hkind, hst, Bool.and_true, Bool.true_and]
-    cases hv : i.verifyMetadata with
-    | nothing => simp [wantedMetadata, hv, kvSubset_nil, addUserMetadata]
-    | all => simp [wantedMetadata, hv, kvSubset_merge _ _ hlm, addUserMetadata_eq, hlm]
-    | wrong => exact absurd hv hmd
+    simp only [hkind, hst, Bool.and_true, Bool.true_and, Bool.and_eq_true]
+    refine ⟨?_, ?_⟩
+    · cases hv : i.verifyMetadata with
+      | nothing => simp [wantedMetadata, hv, addUserMetadata]
+      | all => simp [wantedMetadata, hv, addUserMetadata_eq, hlm]
+      | wrong => exact absurd hv hmd
+    · apply kvSubset_expected i _ hlegal
+      rw [requestedPayload_blob i hkind]
+      cases hv : i.verifyMetadata with
+      | nothing => simp [wantedMetadata, hv, kvSubset_nil]
+      | all => simp [wantedMetadata, hv, kvSubset_merge _ _ hlm]
+      | wrong => exact absurd hv hmd
 
 /-- what is observed of a round trip, in closed form -/
 def obsSpec (i : Input) : Obs :=
@@ -415,7 +670,9 @@ theorem runWith_eq (C : Crypto) (key : C.Key) (trust : C.Pub → Bool) (ht : tru
       have hv : verifyOCI trust ((envelopeOf C key i (expectedAttrs i nowNs)).attrs.signingTime + (i.lagSec : Int))
           i.desc (wantedMetadata i) (envelopeOf C key i (expectedAttrs i nowNs)) = verifySpec i := by
         simp only [verifyOCI, hps, verifySpec, hk]
-        simp [envelopeOf, expectedAttrs, expectedPayload, hk]
+        have hf := expectedPayload_fields i
+        have hr := requestedPayload_oci i hk
+        simp [envelopeOf, expectedAttrs, hf.1, hf.2.1, hf.2.2.1, hr]
       simp only [hv, hexp, userMetadataOf_eq]
       simp [envelopeOf, expectedAttrs]
     | blob =>
@@ -435,9 +692,11 @@ theorem runWith_eq (C : Crypto) (key : C.Key) (trust : C.Pub → Bool) (ht : tru
           | none => simp
           | some r =>
             simp only [Option.isSome_some, Bool.true_and]
-            have hd : (expectedPayload i).digest = i.blob.specDigest i.keySpec := by simp [expectedPayload, hk]
-            have hs : (expectedPayload i).size = i.blob.size := by simp [expectedPayload, hk]
-            have hmt : (expectedPayload i).mediaType = i.contentMediaType := by simp [expectedPayload, hk]
+            have hf := expectedPayload_fields i
+            have hr := requestedPayload_blob i hk
+            have hd : (expectedPayload i).digest = i.blob.specDigest i.keySpec := by rw [hf.2.1, hr]
+            have hs : (expectedPayload i).size = i.blob.size := by rw [hf.2.2.1, hr]
+            have hmt : (expectedPayload i).mediaType = i.contentMediaType := by rw [hf.1, hr]
             simp only [hd, hs, hmt, bne_self_eq_false, Bool.false_or]
             by_cases h1 : (statedMediaType i == "" || statedMediaType i == i.contentMediaType) = true
             · have : (statedMediaType i != "" && statedMediaType i != i.contentMediaType) = false := by
@@ -476,14 +735,20 @@ theorem model_holds (i : Input) (hwf : wf i = true) : Holds i (run i) = true := 
   by_cases hl : legal i = true
   · simp only [hl, if_true]
     by_cases hv : verifySpec i = true
-    · cases hk : i.kind <;> simp [hv, hk, expectedPayload]
+    · have hf := expectedPayload_fields i
+      cases hk : i.kind with
+      | oci => simp [hv, hk]
+      | blob => simp [hv, hk, hf.2.1, requestedPayload_blob i hk]
     · have hne : ¬ (consistentVerify i = true ∧ expiredAtVerify i = false) := by
         intro h
         exact hv (verifySpec_of_consistent i hl h.1 h.2)
       have hv' : verifySpec i = false := by simpa using hv
       have hc : (consistentVerify i && !expiredAtVerify i) = false := by
         cases h1 : consistentVerify i <;> cases h2 : expiredAtVerify i <;> simp_all
-      cases hk : i.kind <;> simp [hv', hk, expectedPayload, hc]
+      have hf := expectedPayload_fields i
+      cases hk : i.kind with
+      | oci => simp [hv', hk, hc]
+      | blob => simp [hv', hk, hc, hf.2.1, requestedPayload_blob i hk]
   · have hl' : legal i = false := by simpa using hl
     simp [hl', noSignature]
 
@@ -529,29 +794,44 @@ theorem illegal_is_refused (C : Crypto) (key : C.Key) (nowNs : Int) (i : Input) 
     (hl : legal i = false) : signModel C key i nowNs = none := by
   simp [signModel_eq C key i nowNs hwf, hl]
 
+theorem requestedPayload_extraKeys (i : Input) : (requestedPayload i).extraKeys = [] := by
+  unfold requestedPayload; cases i.kind <;> rfl
+
 /-- **The signed payload is the sanitised descriptor**: media type, digest, size and the
 annotations with the user metadata merged in - nothing else (no urls, platform, data, artifact
-type), for descriptors with any extra fields. -/
+type), for descriptors with any extra fields and whatever an envelope plugin tried: unless the
+plugin appended an annotation of its own (which the plugin contract allows), the signed payload
+is exactly the requested one. -/
 theorem payload_is_sanitised_desc (C : Crypto) (key : C.Key) (nowNs : Int) (i : Input) (e : Envelope C)
     (hwf : wf i = true) (h : signModel C key i nowNs = some e) :
     e.attrs.payload = expectedPayload i ∧ e.attrs.payload.extraKeys = [] ∧
-    (i.kind = .oci → e.attrs.payload.mediaType = i.desc.mediaType ∧ e.attrs.payload.digest = i.desc.digest ∧
-        e.attrs.payload.size = i.desc.size ∧
+    e.attrs.payload.mediaType = (requestedPayload i).mediaType ∧
+    e.attrs.payload.digest = (requestedPayload i).digest ∧
+    e.attrs.payload.size = (requestedPayload i).size ∧
+    (effectiveTamper i ≠ .addAnnotation → e.attrs.payload = requestedPayload i) ∧
+    (i.kind = .oci → effectiveTamper i ≠ .addAnnotation →
         ∀ k, kvLookup k e.attrs.payload.annotations =
           (kvLookup k i.metadata).orElse (fun _ => kvLookup k i.desc.annotations)) := by
   rw [signModel_eq C key i nowNs hwf] at h
   by_cases hl : legal i = true
   · simp only [hl, if_true, Option.some.injEq] at h
     subst h
-    refine ⟨rfl, ?_, ?_⟩
-    · simp only [envelopeOf, expectedAttrs, expectedPayload]; cases i.kind <;> rfl
-    · intro hk
-      simp only [envelopeOf, expectedAttrs, expectedPayload, hk, true_and]
-      intro k
+    have hf := expectedPayload_fields i
+    have hp : (envelopeOf C key i (expectedAttrs i nowNs)).attrs.payload = expectedPayload i := rfl
+    have hne : effectiveTamper i ≠ .addAnnotation → expectedPayload i = requestedPayload i := by
+      intro hn; unfold expectedPayload; simp [hn]
+    refine ⟨hp, ?_, ?_, ?_, ?_, ?_, ?_⟩
+    · rw [hp, hf.2.2.2, requestedPayload_extraKeys]
+    · rw [hp, hf.1]
+    · rw [hp, hf.2.1]
+    · rw [hp, hf.2.2.1]
+    · intro hn; rw [hp, hne hn]
+    · intro hk hn k
+      rw [hp, hne hn, requestedPayload_oci i hk]
       apply kvLookup_merge
       have hl' := hl
       simp only [legal, hk, Bool.and_eq_true] at hl'
-      exact hl'.2
+      exact hl'.1.2
   · simp [hl] at h
 
 /-- **Expiry is exact**: the protected signing time is the clock truncated to seconds and the
@@ -568,7 +848,7 @@ theorem expiry_exact (C : Crypto) (key : C.Key) (nowNs : Int) (i : Input) (e : E
   · simp only [hl, if_true, Option.some.injEq] at h
     subst h
     simp only [legal, Bool.and_eq_true, decide_eq_true_eq] at hl
-    refine ⟨hl.1.2, hl.1.1, rfl, ?_⟩
+    refine ⟨hl.1.1.2, hl.1.1.1, rfl, ?_⟩
     simp only [envelopeOf, expectedAttrs]
     by_cases hd : i.durationNs = 0 <;> simp [hd]
   · simp [hl] at h
@@ -602,32 +882,46 @@ theorem plugin_hash_consistent (k : KeySpec) (s : SignerKind) :
   rw [primitiveHash_eq, headerAlg_eq]
   exact (coreHash_specAlg k).symm
 
+theorem expectedPayload_of_not_added (i : Input) (hn : effectiveTamper i ≠ .addAnnotation) :
+    expectedPayload i = requestedPayload i := by
+  unfold expectedPayload; simp [hn]
+
 /-- **Successful blob verification returns the descriptor of the blob that was verified**:
 the content media type that was signed, the digest of the blob under the hash bound to the
-key, its size, and exactly the signed metadata. -/
+key, its size, and exactly the signed metadata (plus the annotation an envelope plugin was
+allowed to append, if it did). -/
 theorem blob_returns_verified_descriptor (C : Crypto) (key : C.Key) (trust : C.Pub → Bool)
     (ht : trust (C.pub key) = true) (nowNs : Int) (i : Input) (hwf : wf i = true) (hk : i.kind = .blob)
     (hv : (runWith C key trust nowNs i).verified = true) :
     (runWith C key trust nowNs i).returned = (runWith C key trust nowNs i).payload ∧
-    (runWith C key trust nowNs i).returned =
-      some { mediaType := i.contentMediaType, digest := i.blob.specDigest i.keySpec, size := i.blob.size,
-             annotations := mergeKV [] i.metadata, extraKeys := [] } := by
+    (runWith C key trust nowNs i).returned = some (expectedPayload i) ∧
+    (expectedPayload i).mediaType = i.contentMediaType ∧
+    (expectedPayload i).digest = i.blob.specDigest i.keySpec ∧
+    (expectedPayload i).size = i.blob.size ∧
+    (effectiveTamper i ≠ .addAnnotation → (expectedPayload i).annotations = mergeKV [] i.metadata) := by
   rw [runWith_eq C key trust ht nowNs i hwf] at hv ⊢
   unfold obsSpec at hv ⊢
+  have hf := expectedPayload_fields i
+  have hr := requestedPayload_blob i hk
   by_cases hl : legal i = true
   · simp only [hl, if_true] at hv ⊢
-    simp [hv, hk, expectedPayload]
+    refine ⟨by simp [hv, hk], by simp [hv, hk], by rw [hf.1, hr], by rw [hf.2.1, hr], by rw [hf.2.2.1, hr], ?_⟩
+    intro hn
+    rw [expectedPayload_of_not_added i hn, hr]
   · simp [hl, noSignature] at hv
 
 /-- **The metadata read back is the metadata that was signed**: `UserMetadata()` of a
 successful outcome returns the payload's annotations. For a blob that is exactly the signed
 user metadata (as a map); for an OCI artifact it is the artifact's own annotations together
-with the user metadata (the two are disjoint - colliding keys are refused at signing). -/
+with the user metadata (the two are disjoint - colliding keys are refused at signing). An
+envelope plugin that dropped or changed any of it was refused at signing (`legal`); one that
+appended an annotation of its own contributes that one key and nothing else. -/
 theorem metadata_read_back (C : Crypto) (key : C.Key) (trust : C.Pub → Bool)
     (ht : trust (C.pub key) = true) (nowNs : Int) (i : Input) (hwf : wf i = true)
     (hv : (runWith C key trust nowNs i).verified = true) :
     ∃ um, (runWith C key trust nowNs i).userMetadata = some um ∧
-      ∀ k, kvLookup k um =
+      ∀ k, (effectiveTamper i = .addAnnotation → k ≠ pluginAddedKey) →
+        kvLookup k um =
         match i.kind with
         | .blob => kvLookup k i.metadata
         | .oci => (kvLookup k i.metadata).orElse (fun _ => kvLookup k i.desc.annotations) := by
@@ -636,21 +930,53 @@ theorem metadata_read_back (C : Crypto) (key : C.Key) (trust : C.Pub → Bool)
   by_cases hl : legal i = true
   · simp only [hl, if_true] at hv ⊢
     refine ⟨(expectedPayload i).annotations, by simp [hv], ?_⟩
-    intro k
+    intro k hkey
+    have hreq : kvLookup k (expectedPayload i).annotations = kvLookup k (requestedPayload i).annotations := by
+      unfold expectedPayload
+      split
+      · rename_i ht
+        simp only [kvLookup_insert]
+        have hne : ¬ pluginAddedKey = k := fun h => hkey ht h.symm
+        simp [hne]
+      · rfl
+    rw [hreq]
+    have hl' := hl
     cases hk : i.kind with
     | oci =>
-      simp only [expectedPayload, hk]
+      rw [requestedPayload_oci i hk]
       apply kvLookup_merge
-      have hl' := hl
       simp only [legal, hk, Bool.and_eq_true] at hl'
-      exact hl'.2
+      exact hl'.1.2
     | blob =>
       have hlm : legalMetadata [] i.metadata = true := by
-        simp only [legal, hk, Bool.and_eq_true] at hl
-        exact hl.2.2
-      simp only [expectedPayload, hk, kvLookup_merge k [] i.metadata hlm]
+        simp only [legal, hk, Bool.and_eq_true] at hl'
+        exact hl'.1.2.2
+      rw [requestedPayload_blob i hk]
+      simp only [kvLookup_merge k [] i.metadata hlm]
       cases kvLookup k i.metadata <;> simp [kvLookup]
   · simp [hl, noSignature] at hv
+
+/-- **An unfaithful envelope plugin is refused at signing**: whatever it lost or changed of the
+requested payload (an annotation dropped or changed, another media type or size, a member that
+is not a descriptor field, an appended annotation that overrides a requested one), the signing
+API returns no signature - for descriptors and metadata of any size. -/
+theorem unfaithful_plugin_is_refused (C : Crypto) (key : C.Key) (nowNs : Int) (i : Input) (hwf : wf i = true)
+    (hu : unfaithful (effectiveTamper i) (requestedPayload i) = true) : signModel C key i nowNs = none := by
+  apply illegal_is_refused C key nowNs i hwf
+  simp [legal, hu]
+
+/-- only envelope-generator plugins can be unfaithful at all -/
+theorem other_signers_are_faithful (i : Input) (hs : i.signer ≠ .pluginEnvelope) :
+    effectiveTamper i = .faithful := by
+  unfold effectiveTamper; simp [hs]
+
+/-- a re-serialised payload (other member order, other white space) is the same payload -/
+theorem reserialised_is_faithful (p : DescObs) :
+    tamperPayload .reserialised p = p ∧ unfaithful .reserialised p = false := ⟨rfl, rfl⟩
+
+/-- the bytes the envelope happens to end in, and a line break after a JWS envelope, do not matter -/
+theorem envelope_bytes_irrelevant (i : Input) (b : Option Nat) (nl : Bool) :
+    run { i with envelopeLastByte := b, trailingNewline := nl } = run i := rfl
 
 /-- **The payload's digest and size are those of the full byte sequence, regardless of reader
 behaviour**: two well-formed inputs that differ only in how the readers deliver the blob (on
@@ -667,11 +993,11 @@ theorem blob_payload_covers_whole_stream (C : Crypto) (key : C.Key) (nowNs : Int
     (hwf : wf i = true) (hk : i.kind = .blob) (h : signModel C key i nowNs = some e) :
     e.attrs.payload.size = (represented i.signReader : Int) ∧
     e.attrs.payload.digest = i.blob.specDigest i.keySpec := by
-  have hp := (payload_is_sanitised_desc C key nowNs i e hwf h).1
+  have hp := payload_is_sanitised_desc C key nowNs i e hwf h
   have hs := (wf_blob i hwf hk).1
   rw [copyLoop_eq_represented] at hs
-  rw [hp]
-  simp only [expectedPayload, hk, represented, hs, and_self]
+  rw [hp.2.2.2.2.1, hp.2.2.2.1, requestedPayload_blob i hk]
+  exact ⟨hs.symm, rfl⟩
 
 /-! ### reused signer and verifier objects: the history does not matter -/
 
@@ -800,7 +1126,8 @@ def exampleBlob : Input :=
     metadata := [⟨"commit", "1"⟩, ⟨"buildId", "7"⟩], durationNs := 2000000000, nowFracNs := 999999999,
     agent := "", verifyMediaType := .same, verifyMetadata := .all, lagSec := 1, exactIdentity := false, byTag := false,
     history := { position := 7, prevKeySpec := some .rsa2048, prevKind := some .oci, prevFormat := some .jws,
-                 keyVia := .rotated } }
+                 keyVia := .rotated },
+    tamper := .reserialised, envelopeLastByte := some 32, trailingNewline := false }
 
 /-- a concrete successful round trip (legal, verified, SHA-384 digest for an EC-384 key, 2 s expiry) -/
 example : obsSpec exampleBlob =
@@ -822,6 +1149,24 @@ bytes arriving with io.EOF would sign) -/
 example : Holds exampleBlob { (obsSpec exampleBlob) with
     payload := some { mediaType := "text/plain", digest := "sha384:prefix", size := 1,
                       annotations := [⟨"buildId", "7"⟩, ⟨"commit", "1"⟩], extraKeys := [] } } = false := by decide
+
+/-- an envelope plugin that drops or changes signed metadata is refused; one that appends an
+annotation is accepted and the annotation is reported; other signers never see the payload -/
+example : obsSpec { exampleBlob with signer := .pluginEnvelope, tamper := .dropAnnotation } = noSignature := by decide
+example : obsSpec { exampleBlob with signer := .pluginEnvelope, tamper := .changeAnnotation } = noSignature := by decide
+example : obsSpec { exampleBlob with signer := .pluginEnvelope, tamper := .changeMediaType } = noSignature := by decide
+example : (obsSpec { exampleBlob with signer := .pluginEnvelope, tamper := .addAnnotation }).userMetadata =
+    some [⟨"buildId", "7"⟩, ⟨"c07.plugin.added", "x"⟩, ⟨"commit", "1"⟩] := by decide
+example : (obsSpec { exampleBlob with signer := .localKey, tamper := .dropAnnotation }).signed = true := by decide
+/-- `Holds` is false when a plugin's dropped annotation goes unnoticed: signed, verified, metadata lost -/
+example : Holds { exampleBlob with signer := .pluginEnvelope, tamper := .dropAnnotation, verifyMetadata := .nothing }
+    { signed := true, verified := true,
+      payload := some { mediaType := "text/plain", digest := "sha384:bb", size := 3,
+                        annotations := [⟨"commit", "1"⟩], extraKeys := [] },
+      expirySec := some 2,
+      returned := some { mediaType := "text/plain", digest := "sha384:bb", size := 3,
+                         annotations := [⟨"commit", "1"⟩], extraKeys := [] },
+      userMetadata := some [⟨"commit", "1"⟩] } = false := by decide
 
 /-- a reserved key, and a duration that is not a whole number of seconds, are refused -/
 example : obsSpec { exampleBlob with metadata := [⟨"io.cncf.notary.x", "1"⟩] } = noSignature := by decide
